@@ -10,23 +10,28 @@ namespace Ffcx.Jit
 def userG : Glob := ⟨.user, .user⟩
 def capG : Glob := ⟨.capture, .capture⟩
 
-/-- File-system invariant (every fault): the marker certifies a complete build, with the lock in
-place. -/
+/-- File-system invariant: the marker certifies a complete build, with the lock in place; a temp
+file of the marker only exists inside a lock epoch. -/
 def GInv (fs : FS) : Prop :=
-  fs.marker = true → fs.so = .complete ∧ fs.lock = .source ∧ fs.obj = true
+  (fs.marker = true → fs.so = .complete ∧ fs.lock = .source ∧ fs.obj = true) ∧
+  (fs.tmp = true → fs.lock ≠ .absent)
 
 /-- What is known about a request that left `_compile_objects` by an exception: its globals are
-restored, and the exception is not "marker already exists". -/
+restored, and the exception is not a `FileExistsError` (marker or temp file already there). -/
 def FailG (g : Glob) (c : Cause) : Prop :=
-  g = userG ∧ c ≠ .marker
+  g = userG ∧ c ≠ .marker ∧ c ≠ .tmpExists
 
-/-- Control-state specific facts about one process, relative to the file system (every fault). -/
+/-- What a builder between `ffibuilder.compile` and the publication of the marker knows. -/
+def Built (fs : FS) (p : Proc) : Prop :=
+  p.g = ⟨.capture, .user⟩ ∧ p.saved = userG ∧ fs.lock = .source ∧ fs.obj = true ∧ fs.so = .complete
+
+/-- Control-state specific facts about one process, relative to the file system. -/
 def LocPc (timeout : Nat) (fs : FS) (p : Proc) : Prop :=
   match p.pc with
   | .idle => p.g = userG ∧ p.polls = 0
   | .wPoll i => i < timeout ∧ p.polls = i ∧ p.g = userG
-  | .wFind => fs.so ≠ .absent ∧ p.g = userG
-  | .wLoad => fs.so ≠ .absent ∧ p.g = userG
+  | .wFind => fs.marker = true ∧ p.g = userG
+  | .wLoad => fs.marker = true ∧ p.g = userG
   | .bGen => p.g = userG
   | .bSwap => p.g = userG
   | .bSrc => p.g = capG ∧ p.saved = userG
@@ -34,39 +39,26 @@ def LocPc (timeout : Nat) (fs : FS) (p : Proc) : Prop :=
   | .bLink1 => p.g = capG ∧ p.saved = userG ∧ fs.lock = .source ∧ fs.obj = true
   | .bLink2 => p.g = capG ∧ p.saved = userG ∧ fs.lock = .source ∧ fs.obj = true
   | .bUnredir => p.g = capG ∧ p.saved = userG ∧ fs.lock = .source ∧ fs.obj = true ∧ fs.so = .complete
-  | .bMarkCreate => p.g = ⟨.capture, .user⟩ ∧ p.saved = userG ∧ fs.lock = .source ∧ fs.obj = true ∧ fs.so = .complete
-  | .bMarkWrite => p.g = ⟨.capture, .user⟩ ∧ p.saved = userG ∧ fs.marker = true
-  | .bMarkRemove => p.g = ⟨.capture, .user⟩ ∧ p.saved = userG ∧ fs.marker = true
+  | .bTmpCreate => Built fs p
+  | .bTmpWrite => Built fs p
+  | .bMarkCheck => Built fs p
+  | .bPublish => Built fs p
+  | .bTmpRemove c => p.g = ⟨.capture, .user⟩ ∧ p.saved = userG ∧ c ≠ .marker ∧ c ≠ .tmpExists
   | .bRestore => p.g = ⟨.capture, .user⟩ ∧ p.saved = userG ∧ fs.marker = true
   | .bFind => fs.marker = true ∧ p.g = userG
   | .bLoad => fs.marker = true ∧ p.g = userG
-  | .bFailRestore c => p.g = ⟨.capture, .user⟩ ∧ p.saved = userG ∧ c ≠ .marker
+  | .bFailRestore c => p.g = ⟨.capture, .user⟩ ∧ p.saved = userG ∧ c ≠ .marker ∧ c ≠ .tmpExists
   | .bFail c => FailG p.g c
-  | .done b so => p.g = userG ∧ (b = true → so = .complete)
+  | .done _ so => so = .complete ∧ p.tok = fs.gen ∧ fs.marker = true ∧ p.g = userG
   | .raised .timeout => p.polls = timeout ∧ p.g = userG
   | .raised .notFound => False
   | .raised (.build c) => FailG p.g c
   | .dead => True
 
-/-- Per-process invariant (holds under every fault). -/
+/-- Per-process invariant. -/
 def Loc (timeout : Nat) (fs : FS) (p : Proc) : Prop :=
-  (p.pc.isB = true → fs.lock ≠ .absent) ∧ (p.pc.isPre = true → fs.marker = false) ∧ LocPc timeout fs p
-
-/-- Control-state specific facts that need a fault-free marker write (a marker that has been seen
-is never withdrawn). -/
-def StrongPc (fs : FS) (p : Proc) : Prop :=
-  match p.pc with
-  | .wFind => fs.marker = true
-  | .wLoad => fs.marker = true
-  | .done _ so => so = .complete ∧ p.tok = fs.gen ∧ fs.marker = true
-  | .bMarkRemove => False
-  | .bFailRestore c => c ≠ .markWrite
-  | .bFail c => c ≠ .markWrite
-  | .raised (.build c) => c ≠ .markWrite
-  | _ => True
-
-/-- Per-process invariant of runs with a fault-free marker write. -/
-def Strong (fs : FS) (p : Proc) : Prop := StrongPc fs p
+  (p.pc.isB = true → fs.lock ≠ .absent) ∧ (p.pc.isPre = true → fs.marker = false) ∧
+  (p.pc.noTmp = true → fs.tmp = false) ∧ LocPc timeout fs p
 
 /-! ### Local lemmas about `stepProc` (no lists involved) -/
 
@@ -76,52 +68,25 @@ theorem stepProc_local (t : Nat) (fs : FS) (p : Proc) (c : Choice)
     (hl : Loc t fs p) (hg : GInv fs) :
     Loc t (stepProc t fs p c).1 (stepProc t fs p c).2.1 ∧ GInv (stepProc t fs p c).1 := by
   obtain ⟨pc, g, saved, polls, tok⟩ := p
-  obtain ⟨lock, so, obj, marker, failed, gen⟩ := fs
+  obtain ⟨lock, so, obj, marker, failed, tmp, gen⟩ := fs
   cases pc
   case idle =>
-    cases c <;> cases lock <;> by_cases ht : t = 0 <;>
-      simp_all [stepProc, stepLive, Loc, LocPc, GInv, FailG, Pc.terminal, Pc.isB, Pc.isPre, userG, capG] <;>
+    cases c <;> cases lock <;> cases tmp <;> by_cases ht : t = 0 <;>
+      simp_all [stepProc, stepLive, Loc, LocPc, GInv, FailG, Pc.terminal, Pc.isB, Pc.isPre, Pc.noTmp, userG, capG] <;>
       omega
   case wPoll i =>
     rcases Nat.lt_or_ge (i + 1) t with ht | ht
     · cases c <;> cases marker <;>
-        simp_all [stepProc, stepLive, Loc, LocPc, GInv, FailG, Pc.terminal, Pc.isB, Pc.isPre, userG, capG]
+        simp_all [stepProc, stepLive, Loc, LocPc, GInv, FailG, Pc.terminal, Pc.isB, Pc.isPre, Pc.noTmp, userG, capG]
     · cases c <;> cases marker <;>
-        simp_all [stepProc, stepLive, Loc, LocPc, GInv, FailG, Pc.terminal, Pc.isB, Pc.isPre, userG, capG,
+        simp_all [stepProc, stepLive, Loc, LocPc, GInv, FailG, Pc.terminal, Pc.isB, Pc.isPre, Pc.noTmp, userG, capG,
           if_neg (Nat.not_lt.mpr ht)] <;> omega
   case raised e =>
     cases e <;> cases c <;>
-      simp_all [stepProc, stepLive, Loc, LocPc, GInv, FailG, Pc.terminal, Pc.isB, Pc.isPre, userG, capG]
-  all_goals cases c
+      simp_all [stepProc, stepLive, Loc, LocPc, GInv, FailG, Pc.terminal, Pc.isB, Pc.isPre, Pc.noTmp, userG, capG]
+  all_goals cases c <;> cases tmp
   all_goals
-    simp_all [stepProc, stepLive, Loc, LocPc, GInv, FailG, Pc.terminal, Pc.isB, Pc.isPre, userG, capG,
-      Proc.compileRaises, Proc.markRaises]
-
-/-- The step of a request preserves its strong invariant, provided it is not a failing
-`fd.write`/`fd.close` of the marker. -/
-theorem stepProc_strong (t : Nat) (fs : FS) (p : Proc) (c : Choice)
-    (hl : Loc t fs p) (hs : Strong fs p) (hg : GInv fs)
-    (hw : (stepProc t fs p c).2.2 ≠ ⟨.markWrite, .raise⟩) :
-    Strong (stepProc t fs p c).1 (stepProc t fs p c).2.1 := by
-  obtain ⟨pc, g, saved, polls, tok⟩ := p
-  obtain ⟨lock, so, obj, marker, failed, gen⟩ := fs
-  cases pc
-  case idle =>
-    cases c <;> cases lock <;> by_cases ht : t = 0 <;>
-      simp_all [stepProc, stepLive, Loc, LocPc, Strong, StrongPc, GInv, Pc.terminal, Pc.isB, Pc.isPre]
-  case wPoll i =>
-    rcases Nat.lt_or_ge (i + 1) t with ht | ht
-    · cases c <;> cases marker <;>
-        simp_all [stepProc, stepLive, Loc, LocPc, Strong, StrongPc, GInv, Pc.terminal, Pc.isB, Pc.isPre]
-    · cases c <;> cases marker <;>
-        simp_all [stepProc, stepLive, Loc, LocPc, Strong, StrongPc, GInv, Pc.terminal, Pc.isB, Pc.isPre,
-          if_neg (Nat.not_lt.mpr ht)]
-  case raised e =>
-    cases e <;> cases c <;>
-      simp_all [stepProc, stepLive, Loc, LocPc, Strong, StrongPc, GInv, Pc.terminal, Pc.isB, Pc.isPre]
-  all_goals cases c
-  all_goals
-    simp_all [stepProc, stepLive, Loc, LocPc, Strong, StrongPc, GInv, Pc.terminal, Pc.isB, Pc.isPre,
+    simp_all [stepProc, stepLive, Loc, LocPc, Built, GInv, FailG, Pc.terminal, Pc.isB, Pc.isPre, Pc.noTmp, userG, capG,
       Proc.compileRaises, Proc.markRaises]
 
 /-- A process that is not in a lock epoch changes the file system only by acquiring the lock. -/
@@ -138,36 +103,15 @@ theorem stepProc_birth (t : Nat) (fs : FS) (p : Proc) (c : Choice)
     p.pc = .idle ∧ fs.lock = .absent := by
   obtain ⟨pc, g, saved, polls, tok⟩ := p
   cases pc <;> cases c <;>
-    simp [stepProc, stepLive, Pc.terminal, apply_ite Prod.fst, apply_ite Prod.snd,
+    simp [stepProc, stepLive, Pc.terminal, Proc.markRaises, apply_ite Prod.fst, apply_ite Prod.snd,
       apply_ite Proc.pc, apply_ite Pc.isB] at hb' ⊢ <;> simp_all [Pc.isB]
 
-/-- Only the handler of a failed marker write deletes the marker. -/
+/-- Nobody ever deletes the marker. -/
 theorem stepProc_marker_mono (t : Nat) (fs : FS) (p : Proc) (c : Choice)
-    (hp : p.pc ≠ .bMarkRemove) (h : fs.marker = true) : (stepProc t fs p c).1.marker = true := by
+    (h : fs.marker = true) : (stepProc t fs p c).1.marker = true := by
   obtain ⟨pc, g, saved, polls, tok⟩ := p
   cases pc <;> cases c <;> simp_all [stepProc, stepLive, Pc.terminal, Proc.compileRaises, Proc.markRaises] <;>
     (repeat' split) <;> simp_all
-
-/-- Once the linker has created the `.so` the name never disappears again. -/
-theorem stepProc_so_mono (t : Nat) (fs : FS) (p : Proc) (c : Choice)
-    (h : fs.so ≠ .absent) : (stepProc t fs p c).1.so ≠ .absent := by
-  obtain ⟨pc, g, saved, polls, tok⟩ := p
-  cases pc <;> cases c <;> simp_all [stepProc, stepLive, Pc.terminal, Proc.compileRaises, Proc.markRaises] <;>
-    (repeat' split) <;> simp_all
-
-theorem Loc_mono_nonB (t : Nat) (fs fs' : FS) (q : Proc) (hb : q.pc.isB = false)
-    (h : Loc t fs q) (hm : fs.so ≠ .absent → fs'.so ≠ .absent) : Loc t fs' q := by
-  obtain ⟨pc, g, saved, polls, tok⟩ := q
-  cases pc <;> simp_all [Loc, LocPc, Pc.isB, Pc.isPre]
-  case raised e => cases e <;> simp_all [LocPc]
-
-/-- A request outside a lock epoch keeps its strong invariant when the file system changes, as
-long as an existing marker stays and the `.so` generation is not changed while it exists. -/
-theorem Strong_mono_nonB (fs fs' : FS) (q : Proc) (hb : q.pc.isB = false)
-    (h : Strong fs q) (hgen : fs.marker = true → fs'.marker = true ∧ fs'.gen = fs.gen) : Strong fs' q := by
-  obtain ⟨pc, g, saved, polls, tok⟩ := q
-  cases pc <;> simp_all [Strong, StrongPc, Pc.isB]
-  case raised e => cases e <;> simp_all [StrongPc]
 
 /-- With the marker present no step re-creates the `.so`. -/
 theorem stepProc_gen_frozen (t : Nat) (fs : FS) (p : Proc) (c : Choice) (hl : Loc t fs p)
@@ -177,6 +121,12 @@ theorem stepProc_gen_frozen (t : Nat) (fs : FS) (p : Proc) (c : Choice) (hl : Lo
     simp_all [stepProc, stepLive, Pc.terminal, Proc.compileRaises, Proc.markRaises, Loc, Pc.isPre] <;>
     (repeat' split) <;> simp_all
 
+theorem Loc_mono_nonB (t : Nat) (fs fs' : FS) (q : Proc) (hb : q.pc.isB = false)
+    (h : Loc t fs q) (hm : fs.marker = true → fs'.marker = true ∧ fs'.gen = fs.gen) : Loc t fs' q := by
+  obtain ⟨pc, g, saved, polls, tok⟩ := q
+  cases pc <;> simp_all [Loc, LocPc, Pc.isB, Pc.isPre, Pc.noTmp]
+  case raised e => cases e <;> simp_all [LocPc]
+
 /-- Lock epochs: acquisitions and releases bracket the existence of the lock file. -/
 theorem stepProc_epoch (t : Nat) (fs : FS) (p : Proc) (c : Choice) (hl : Loc t fs p) :
     (if (stepProc t fs p c).1.lock = .absent then 0 else 1)
@@ -184,7 +134,7 @@ theorem stepProc_epoch (t : Nat) (fs : FS) (p : Proc) (c : Choice) (hl : Loc t f
     = (if fs.lock = .absent then 0 else 1)
       + (if (stepProc t fs p c).2.2 = ⟨.lock, .ok⟩ then 1 else 0) := by
   obtain ⟨pc, g, saved, polls, tok⟩ := p
-  obtain ⟨lock, so, obj, marker, failed, gen⟩ := fs
+  obtain ⟨lock, so, obj, marker, failed, tmp, gen⟩ := fs
   cases pc <;> cases c <;> cases lock <;>
     simp_all [stepProc, stepLive, Pc.terminal, Proc.compileRaises, Proc.markRaises, Loc, Pc.isB] <;>
     (repeat' split) <;> simp_all
@@ -221,28 +171,22 @@ theorem stepProc_fuel (t : Nat) (fs : FS) (p : Proc) (c : Choice) (hc : c ≠ .a
 theorem fuel_zero_iff (t : Nat) (pc : Pc) : fuel t pc = 0 ↔ pc.terminal = true := by
   cases pc <;> simp [fuel, Pc.terminal]
 
-theorem fuel_le (t : Nat) (pc : Pc) : fuel t pc ≤ t + 14 := by
+theorem fuel_le (t : Nat) (pc : Pc) : fuel t pc ≤ t + 16 := by
   cases pc <;> simp [fuel] <;> omega
 
 /-- Failure-free steps never enter the `except` block (given the invariant). -/
 def Pc.faulty : Pc → Bool
-  | .bFailRestore _ | .bFail _ | .raised (.build _) | .dead => true
+  | .bTmpRemove _ | .bFailRestore _ | .bFail _ | .raised (.build _) | .dead => true
   | _ => false
 
-theorem stepProc_nf (t : Nat) (fs : FS) (p : Proc) (hl : Loc t fs p) (hs : Strong fs p)
+theorem stepProc_nf (t : Nat) (fs : FS) (p : Proc) (hl : Loc t fs p)
     (hf : p.pc.faulty = false) :
     (stepProc t fs p .none).2.1.pc.faulty = false ∧ (stepProc t fs p .none).2.2 ≠ ⟨.release, .ok⟩ := by
   obtain ⟨pc, g, saved, polls, tok⟩ := p
   cases pc <;>
-    simp_all [stepProc, stepLive, Pc.terminal, Loc, LocPc, Strong, StrongPc, Pc.isPre, Pc.isB, apply_ite Prod.fst,
+    simp_all [stepProc, stepLive, Pc.terminal, Loc, LocPc, Pc.isPre, Pc.isB, Pc.noTmp, apply_ite Prod.fst,
       apply_ite Prod.snd, apply_ite Proc.pc, apply_ite Pc.faulty, Proc.markRaises] <;>
     (try simp_all [Pc.faulty]) <;> (repeat' split) <;> (try simp_all)
-
-/-- A step with choice `none` never raises an injected fault. -/
-theorem stepProc_none_obs (t : Nat) (fs : FS) (p : Proc) :
-    (stepProc t fs p .none).2.2 ≠ ⟨.markWrite, .raise⟩ := by
-  obtain ⟨pc, g, saved, polls, tok⟩ := p
-  cases pc <;> simp [stepProc, stepLive, Pc.terminal] <;> (repeat' split) <;> simp
 
 /-- Once the marker exists no step acquires the lock or invokes the compiler. -/
 theorem stepProc_reuse (t : Nat) (fs : FS) (p : Proc) (c : Choice) (hl : Loc t fs p)
@@ -250,7 +194,7 @@ theorem stepProc_reuse (t : Nat) (fs : FS) (p : Proc) (c : Choice) (hl : Loc t f
     (stepProc t fs p c).2.2 ≠ ⟨.lock, .ok⟩ ∧ (stepProc t fs p c).2.2.op ≠ .src ∧
     (stepProc t fs p c).2.1.pc.isCompile = false := by
   obtain ⟨pc, g, saved, polls, tok⟩ := p
-  obtain ⟨lock, so, obj, marker, failed, gen⟩ := fs
+  obtain ⟨lock, so, obj, marker, failed, tmp, gen⟩ := fs
   cases pc <;> cases c <;>
     simp_all [stepProc, stepLive, Pc.terminal, Loc, LocPc, GInv, Pc.isPre, Pc.isB, Pc.isCompile,
       Proc.compileRaises, Proc.markRaises] <;>
@@ -260,12 +204,12 @@ theorem stepProc_reuse (t : Nat) (fs : FS) (p : Proc) (c : Choice) (hl : Loc t f
 
 /-- `ffibuilder.compile` has been entered (source phase done), the marker not yet created. -/
 def Pc.postC : Pc → Bool
-  | .bObj | .bLink1 | .bLink2 | .bUnredir | .bMarkCreate => true
+  | .bObj | .bLink1 | .bLink2 | .bUnredir | .bTmpCreate | .bTmpWrite | .bMarkCheck | .bPublish => true
   | _ => false
 
 /-- The linker has re-created the `.so`, the marker not yet created. -/
 def Pc.postL : Pc → Bool
-  | .bLink2 | .bUnredir | .bMarkCreate => true
+  | .bLink2 | .bUnredir | .bTmpCreate | .bTmpWrite | .bMarkCheck | .bPublish => true
   | _ => false
 
 /-- Inside `ffibuilder.compile`, before the linker starts. -/
@@ -287,7 +231,7 @@ theorem stepProc_gen (t : Nat) (fs : FS) (p : Proc) (c : Choice) :
     (stepProc t fs p c).1.gen = fs.gen + (if (stepProc t fs p c).2.2 = ⟨.link1, .ok⟩ then 1 else 0) ∧
     ((stepProc t fs p c).2.2 = ⟨.link1, .ok⟩ → p.pc = .bLink1) ∧
     ((stepProc t fs p c).2.2.op = .src → p.pc = .bSrc) ∧
-    ((stepProc t fs p c).1.marker = true → fs.marker = false → p.pc = .bMarkCreate) := by
+    ((stepProc t fs p c).1.marker = true → fs.marker = false → p.pc = .bPublish) := by
   obtain ⟨pc, g, saved, polls, tok⟩ := p
   cases pc <;> cases c <;>
     simp [stepProc, stepLive, Pc.terminal, Proc.compileRaises, Proc.markRaises] <;>
@@ -376,7 +320,7 @@ theorem inv_init (n t : Nat) : Inv (init n t) := by
   · intro i p h
     simp [init, List.getElem?_replicate] at h
     obtain ⟨_, rfl⟩ := h
-    simp [Loc, LocPc, Pc.isB, Pc.isPre, userG]
+    simp [Loc, LocPc, Pc.isB, Pc.isPre, Pc.noTmp, userG]
   · simp [init, GInv]
   · intro i j p q hp hq hb
     simp [init, List.getElem?_replicate] at hp
@@ -410,7 +354,8 @@ theorem inv_step (s : Sys) (pid : Nat) (c : Choice) (h : Inv s) : Inv (step s pi
       have hlq := h.loc j q hq
       cases hbq : q.pc.isB with
       | false =>
-        exact Loc_mono_nonB _ _ _ _ hbq hlq (stepProc_so_mono _ _ _ _)
+        exact Loc_mono_nonB _ _ _ _ hbq hlq
+          (fun hm => ⟨stepProc_marker_mono _ _ _ _ hm, stepProc_gen_frozen _ _ _ _ hlp hm⟩)
       | true =>
         have hbp : p.pc.isB = false := by
           cases hbp : p.pc.isB with
@@ -565,102 +510,6 @@ theorem reachNF_reach {s : Sys} (h : ReachNF s) : Reach s := by
   | init n t => exact Reach.init n t
   | step pid _ ih => exact Reach.step pid .none ih
 
-/-! ### The strong invariant: runs with a fault-free marker write -/
-
-structure InvS (s : Sys) : Prop where
-  inv : Inv s
-  strong : ∀ (i : Nat) (p : Proc), s.procs[i]? = some p → Strong s.fs p
-
-theorem invS_init (n t : Nat) : InvS (init n t) := by
-  refine ⟨inv_init n t, ?_⟩
-  intro i p h
-  simp [init, List.getElem?_replicate] at h
-  obtain ⟨_, rfl⟩ := h
-  simp [Strong, StrongPc]
-
-theorem invS_step (s : Sys) (pid : Nat) (c : Choice) (h : InvS s)
-    (hw : obs s pid c ≠ ⟨.markWrite, .raise⟩) : InvS (step s pid c) := by
-  have hinv' := inv_step s pid c h.inv
-  cases hp : s.procs[pid]? with
-  | none =>
-    have : step s pid c = s := by unfold step; simp [hp]
-    rw [this]; exact h
-  | some p =>
-    have hs := step_procs_self s pid c p hp
-    rw [hs.2.2] at hw
-    have hlp := h.inv.loc pid p hp
-    have hsp := h.strong pid p hp
-    have hst := stepProc_strong s.timeout s.fs p c hlp hsp h.inv.ginv hw
-    have hnr : p.pc ≠ .bMarkRemove := by
-      intro hpc; simp [Strong, StrongPc, hpc] at hsp
-    refine ⟨hinv', ?_⟩
-    intro j q hq
-    rw [hs.2.1]
-    by_cases hj : j = pid
-    · subst hj; rw [hs.1] at hq; simp at hq; subst hq; exact hst
-    · rw [step_procs_other s pid j c hj] at hq
-      have hlq := h.inv.loc j q hq
-      have hsq := h.strong j q hq
-      cases hbq : q.pc.isB with
-      | false =>
-        exact Strong_mono_nonB _ _ _ hbq hsq
-          (fun hm => ⟨stepProc_marker_mono _ _ _ _ hnr hm, stepProc_gen_frozen _ _ _ _ hlp hm⟩)
-      | true =>
-        have hbp : p.pc.isB = false := by
-          cases hbp : p.pc.isB with
-          | false => rfl
-          | true => exact absurd (h.inv.mutex j pid q p hq hp hbq hbp) hj
-        have : (stepProc s.timeout s.fs p c).1 = s.fs :=
-          stepProc_frame _ _ _ _ hbp (fun hh => hlq.1 hbq hh.2)
-        rw [this]; exact hsq
-
-theorem invS_reachW {s : Sys} (h : ReachW s) : InvS s := by
-  induction h with
-  | init n t => exact invS_init n t
-  | step pid c _ hw ih => exact invS_step _ pid c ih hw
-
-theorem reachW_reach {s : Sys} (h : ReachW s) : Reach s := by
-  induction h with
-  | init n t => exact Reach.init n t
-  | step pid c _ _ ih => exact Reach.step pid c ih
-
-theorem obs_none (s : Sys) (pid : Nat) : obs s pid .none ≠ ⟨.markWrite, .raise⟩ := by
-  unfold obs
-  split
-  · simp
-  · exact stepProc_none_obs _ _ _
-
-theorem reachNF_reachW {s : Sys} (h : ReachNF s) : ReachW s := by
-  induction h with
-  | init n t => exact ReachW.init n t
-  | step pid _ ih => exact ReachW.step pid .none ih (obs_none _ pid)
-
-theorem reachW_run {s : Sys} (h : ReachW s) (sch : List (Nat × Choice)) (hw : NoMWFail s sch) :
-    ReachW (run s sch) := by
-  induction sch generalizing s with
-  | nil => exact h
-  | cons a rest ih =>
-    obtain ⟨pid, c⟩ := a
-    exact ih (ReachW.step pid c h hw.1) hw.2
-
-theorem invS_run {s : Sys} (h : InvS s) (sch : List (Nat × Choice)) (hw : NoMWFail s sch) :
-    InvS (run s sch) := by
-  induction sch generalizing s with
-  | nil => exact h
-  | cons a rest ih =>
-    obtain ⟨pid, c⟩ := a
-    exact ih (invS_step s pid c h hw.1) hw.2
-
-theorem noMWFail_of_none (s : Sys) (sch : List (Nat × Choice)) (hn : ∀ x ∈ sch, x.2 = .none) :
-    NoMWFail s sch := by
-  induction sch generalizing s with
-  | nil => trivial
-  | cons a rest ih =>
-    obtain ⟨pid, c⟩ := a
-    have : c = .none := hn (pid, c) (by simp)
-    subst this
-    exact ⟨obs_none s pid, ih _ (fun x hx => hn x (by simp [hx]))⟩
-
 /-! ### Fuel: every request takes a bounded number of effective steps -/
 
 theorem fuelAt_step_self (s : Sys) (pid : Nat) (c : Choice) (hc : c ≠ .again) :
@@ -700,15 +549,15 @@ theorem fuelAt_run (s : Sys) (sch : List (Nat × Choice)) (j : Nat) (hn : noRetr
       simp [run, sched, List.filter_cons, hj] at h1 ⊢
       omega
 
-theorem fuelAt_le (s : Sys) (j : Nat) : fuelAt s j ≤ s.timeout + 14 := by
+theorem fuelAt_le (s : Sys) (j : Nat) : fuelAt s j ≤ s.timeout + 16 := by
   unfold fuelAt; split
   · exact fuel_le _ _
   · omega
 
-/-- A request that has been scheduled `timeout + 14` times has returned, raised or died. -/
+/-- A request that has been scheduled `timeout + 16` times has returned, raised or died. -/
 theorem terminal_of_sched (s : Sys) (sch : List (Nat × Choice)) (j : Nat) (p : Proc)
     (hn : noRetry sch j)
-    (hs : sched sch j ≥ s.timeout + 14) (hp : (run s sch).procs[j]? = some p) :
+    (hs : sched sch j ≥ s.timeout + 16) (hp : (run s sch).procs[j]? = some p) :
     p.pc.terminal = true := by
   have h1 := fuelAt_run s sch j hn
   have h2 := fuelAt_le s j
@@ -760,13 +609,13 @@ theorem countP_set {α : Type} (P : α → Bool) (l : List α) (i : Nat) (a b : 
       have := ih k (by simpa using h)
       simp [List.countP_cons]; omega
 
-theorem stepProc_bb (t : Nat) (fs : FS) (p : Proc) (hl : Loc t fs p) (hs : Strong fs p)
+theorem stepProc_bb (t : Nat) (fs : FS) (p : Proc) (hl : Loc t fs p)
     (hg : GInv fs) (hf : p.pc.faulty = false) :
     (if (stepProc t fs p .none).2.1.pc.isBB then 1 else 0) =
       (if p.pc.isBB then 1 else 0) + (if (stepProc t fs p .none).2.2 = ⟨.lock, .ok⟩ then 1 else 0) := by
   obtain ⟨pc, g, saved, polls, tok⟩ := p
   cases pc <;>
-    simp_all [stepProc, stepLive, Pc.terminal, Loc, LocPc, Strong, StrongPc, GInv, Pc.isPre, Pc.isB, Pc.faulty,
+    simp_all [stepProc, stepLive, Pc.terminal, Loc, LocPc, GInv, Pc.isPre, Pc.isB, Pc.noTmp, Pc.faulty,
       Proc.markRaises] <;>
     (repeat' split) <;> simp_all [Pc.isBB, Pc.isB, Pc.isBuilt]
 /-! ### Failure-free runs -/
@@ -787,15 +636,14 @@ theorem invNF_reach {s : Sys} (h : ReachNF s) : InvNF s := by
       rfl
     · simp [init, List.countP_replicate, Pc.isBB, Pc.isB, Pc.isBuilt]
   | @step s pid hr ih =>
-    have hinvS := invS_reachW (reachNF_reachW hr)
-    have hinv := hinvS.inv
+    have hinv := inv_reach (reachNF_reach hr)
     cases hp : s.procs[pid]? with
     | none =>
       have : step s pid .none = s := by unfold step; simp [hp]
       rw [this]; exact ih
     | some p =>
       have hs := step_procs_self s pid .none p hp
-      have hnf := stepProc_nf s.timeout s.fs p (hinv.loc pid p hp) (hinvS.strong pid p hp) (ih.clean pid p hp)
+      have hnf := stepProc_nf s.timeout s.fs p (hinv.loc pid p hp) (ih.clean pid p hp)
       refine ⟨?_, ?_, ?_⟩
       · intro i q hq
         by_cases hi : i = pid
@@ -804,8 +652,7 @@ theorem invNF_reach {s : Sys} (h : ReachNF s) : InvNF s := by
       · have := ih.norel
         unfold step
         simp [hp, hnf.2, this]
-      · have hbb := stepProc_bb s.timeout s.fs p (hinv.loc pid p hp) (hinvS.strong pid p hp) hinv.ginv
-          (ih.clean pid p hp)
+      · have hbb := stepProc_bb s.timeout s.fs p (hinv.loc pid p hp) hinv.ginv (ih.clean pid p hp)
         have hcs := countP_set (fun p => p.pc.isBB) s.procs pid
           (stepProc s.timeout s.fs p .none).2.1 p hp
         have := ih.built
@@ -815,7 +662,7 @@ theorem invNF_reach {s : Sys} (h : ReachNF s) : InvNF s := by
 
 /-! ### After the marker -/
 
-theorem step_after_marker (s : Sys) (pid : Nat) (c : Choice) (h : InvS s) (hm : s.fs.marker = true) :
+theorem step_after_marker (s : Sys) (pid : Nat) (c : Choice) (h : Inv s) (hm : s.fs.marker = true) :
     (step s pid c).fs.marker = true ∧ (step s pid c).nLock = s.nLock ∧
     (step s pid c).nCompile = s.nCompile := by
   cases hp : s.procs[pid]? with
@@ -824,22 +671,19 @@ theorem step_after_marker (s : Sys) (pid : Nat) (c : Choice) (h : InvS s) (hm : 
     rw [this]; exact ⟨hm, rfl, rfl⟩
   | some p =>
     have hs := step_procs_self s pid c p hp
-    have hr := stepProc_reuse s.timeout s.fs p c (h.inv.loc pid p hp) h.inv.ginv hm
-    have hnr : p.pc ≠ .bMarkRemove := by
-      intro hpc; have := h.strong pid p hp; simp [Strong, StrongPc, hpc] at this
-    refine ⟨by rw [hs.2.1]; exact stepProc_marker_mono _ _ _ _ hnr hm, ?_, ?_⟩
+    have hr := stepProc_reuse s.timeout s.fs p c (h.loc pid p hp) h.ginv hm
+    refine ⟨by rw [hs.2.1]; exact stepProc_marker_mono _ _ _ _ hm, ?_, ?_⟩
     · unfold step; simp [hp, hr.1]
     · unfold step; simp [hp, hr.2.1]
 
-theorem run_after_marker (s : Sys) (sch : List (Nat × Choice)) (h : InvS s) (hw : NoMWFail s sch)
-    (hm : s.fs.marker = true) :
+theorem run_after_marker (s : Sys) (sch : List (Nat × Choice)) (h : Inv s) (hm : s.fs.marker = true) :
     (run s sch).fs.marker = true ∧ (run s sch).nLock = s.nLock ∧ (run s sch).nCompile = s.nCompile := by
   induction sch generalizing s with
   | nil => exact ⟨hm, rfl, rfl⟩
   | cons a rest ih =>
     obtain ⟨pid, c⟩ := a
     have h1 := step_after_marker s pid c h hm
-    have h2 := ih (step s pid c) (invS_step s pid c h hw.1) hw.2 h1.1
+    have h2 := ih (step s pid c) (inv_step s pid c h) h1.1
     simp only [run]
     exact ⟨h2.1, h2.2.1.trans h1.2.1, h2.2.2.trans h1.2.2⟩
 
@@ -910,39 +754,31 @@ theorem pollsAt_init (n t j : Nat) : pollsAt (init n t) j = 0 := by
 
 theorem stepProc_fail (t : Nat) (fs : FS) (p : Proc)
     (h : p.pc = .bGen ∨ p.pc = .bSrc ∨ p.pc = .bObj ∨ p.pc = .bLink1 ∨ p.pc = .bLink2 ∨
-      p.pc = .bMarkCreate ∨ p.pc = .bMarkWrite) :
+      p.pc = .bTmpCreate ∨ p.pc = .bTmpWrite ∨ p.pc = .bPublish) :
     ((p.pc = .bGen ∧ (stepProc t fs p .fail).2.1.pc = .bFail .gen) ∨
       (p.pc.isCompile = true ∧ p.pc ≠ .bGen ∧ (stepProc t fs p .fail).2.1.pc = .bFailRestore .compile) ∨
-      (p.pc = .bMarkCreate ∧ (stepProc t fs p .fail).2.1.pc = .bFailRestore .markOpen) ∨
-      (p.pc = .bMarkWrite ∧ (stepProc t fs p .fail).2.1.pc = .bMarkRemove)) ∧
+      (∃ cause, (cause = .tmpOpen ∨ cause = .tmpWrite ∨ cause = .publish) ∧
+        (stepProc t fs p .fail).2.1.pc = if fs.tmp then .bTmpRemove cause else .bFailRestore cause)) ∧
     (stepProc t fs p .fail).1 = fs ∧ (stepProc t fs p .fail).2.2.res = .raise := by
   obtain ⟨pc, g, saved, polls, tok⟩ := p
-  rcases h with h | h | h | h | h | h | h <;> simp only at h <;> subst h <;>
+  rcases h with h | h | h | h | h | h | h | h <;> simp only at h <;> subst h <;>
     simp [stepProc, stepLive, Pc.terminal, Proc.compileRaises, Proc.markRaises, Pc.isCompile]
 
 theorem stepProc_marks (t : Nat) (fs : FS) (p : Proc) (c : Choice) (h0 : fs.marker = false)
     (h1 : (stepProc t fs p c).1.marker = true) :
-    p.pc = .bMarkCreate ∧ (stepProc t fs p c).2.2 = ⟨.markCreate, .ok⟩ := by
+    p.pc = .bPublish ∧ (stepProc t fs p c).2.2 = ⟨.publish, .ok⟩ := by
   obtain ⟨pc, g, saved, polls, tok⟩ := p
   cases pc <;> cases c <;>
     simp [stepProc, stepLive, Pc.terminal, Proc.compileRaises, Proc.markRaises, apply_ite Prod.fst, apply_ite Prod.snd,
       apply_ite FS.marker, h0] at h1 ⊢ <;> simp_all
 
-/-! ### Schedules with a failing marker write (shared by C14 and C15) -/
+/-! ### The schedule with a failing marker write (examples of C14 and C15) -/
 
-/-- Request 0 builds alone: lock, gen, swap, src, obj, link1, link2, unredir, `open(ready,'x')`
-(nine steps); then `fd.write(s)` raises (`fail` at `markWrite`); the handler removes the marker;
-the `finally` block restores the handlers; the `except` block of compile_forms renames
+/-- Request 0 builds alone: lock, gen, swap, src, obj, link1, link2, unredir, `open(tmp,'x')`
+(nine steps); then `fd.write(s)` raises (`fail` at `tmpWrite`); the inner `finally` removes the temp
+file; the outer one restores the handlers; the `except` block of compile_forms renames
 `<module>.c` to `.c.failed`. -/
 def failedMarkerWrite : List (Nat × Choice) :=
   List.replicate 9 (0, .none) ++ [(0, .fail), (0, .none), (0, .none), (0, .none)]
-
-/-- The withdrawn-marker race: request 0 builds up to `open(ready,'x')`; request 1 finds the lock
-taken and its first poll sees the (still empty) marker; request 0's `fd.write` raises, the marker is
-removed, the handlers restored, the lock renamed; request 2 acquires the lock and rebuilds up to the
-half-written `.so` (six steps); request 1, already past its poll, goes on to `find_spec`. -/
-def withdrawnMarkerRace : List (Nat × Choice) :=
-  List.replicate 9 (0, .none) ++ [(1, .none), (1, .none)] ++
-    [(0, .fail), (0, .none), (0, .none), (0, .none)] ++ List.replicate 6 (2, .none) ++ [(1, .none)]
 
 end Ffcx.Jit
